@@ -57,6 +57,17 @@ for where in ("loose", "packed", "absent"):
                         verdict(True, "stale expectation was not refused", input=inp, observed=dict(result=ok, before=str(before), after=str(after)))
                 elif not ok or X in after:
                     verdict(True, "matching expectation did not remove the ref", input=inp, observed=dict(result=ok, after=str(after)))
+    # a ref that is packed with an older value and loose with the current one (pack-refs, then a commit)
+    if where == "packed":
+        for old in (A, B):
+            tried += 1
+            t, r = fresh(loose={X: B}, packed={X: A})
+            ok = r.set_if_equals(X, old, C)
+            inp = dict(op="set_if_equals", where="packed(old value)+loose(current value)", old=old.decode()[:4], current="bbbb")
+            if old == A and (ok or r[X] != B):
+                verdict(True, "stale expectation (the packed value) was not refused", input=inp, observed=dict(result=ok, value=str(r[X])))
+            if old == B and (not ok or r[X] != C):
+                verdict(True, "matching expectation did not update the ref", input=inp, observed=dict(result=ok, value=str(r[X])))
     # add_if_new never changes an existing ref
     t, r = fresh(loose={X: A} if where == "loose" else None, packed={X: A} if where == "packed" else None)
     ok = r.add_if_new(X, C)
